@@ -188,9 +188,44 @@ def judge(ctx, s, traces, selftest=True, detailed=True, what="PageDecoder"):
     return rej
 
 
+def apalache_induction(ctx):
+    """Unbounded part (any number of pages and lines): Apalache proves that IndInv of spec/PageDecoderInd.tla is inductive
+    (base: Init => IndInv, step: IndInv /\\ Next => IndInv') and refutes it for Legacy = TRUE.  TLC's PROPERTY Refines (above)
+    ties PageDecoderInd to PageDecoder.tla, which trace validation ties to the code."""
+    import shutil
+    import subprocess
+    import time
+    from ..core import MachineryFailure, VERIF
+    exe = shutil.which("apalache-mc")
+    if exe is None:
+        ctx.notes["apalache"] = "apalache-mc not found: unbounded induction skipped"
+        return
+    wd = os.path.join(ctx.workdir, "apalache")
+    os.makedirs(wd, exist_ok=True)
+    shutil.copy(os.path.join(VERIF, "spec", "PageDecoderInd.tla"), wd)
+    runs = [("step: IndInv /\\ Next => IndInv' (repaired)", ["--cinit=CInitRepaired", "--init=IndInit", "--inv=IndInv", "--length=1"], "NoError"),
+            ("base: Init => IndInv (repaired)", ["--cinit=CInitRepaired", "--init=Init", "--inv=IndInv", "--length=0"], "NoError"),
+            ("self-test: step must fail with Legacy = TRUE", ["--cinit=CInitLegacy", "--init=IndInit", "--inv=IndInv", "--length=1"], "Error")]
+    out = []
+    for name, args, want in runs:
+        t0 = time.time()
+        try:
+            p = subprocess.run([exe, "check"] + args + ["--out-dir=" + os.path.join(wd, "out"), "PageDecoderInd.tla"], cwd=wd,
+                               stdout=subprocess.PIPE, stderr=subprocess.STDOUT, text=True, timeout=900)
+        except subprocess.TimeoutExpired:
+            raise MachineryFailure("apalache-mc timed out on PageDecoderInd (%s)" % name)
+        got = "NoError" if "The outcome is: NoError" in p.stdout else ("Error" if "The outcome is: Error" in p.stdout else "?")
+        out.append({"obligation": name, "outcome": got, "wall_s": round(time.time() - t0, 1)})
+        if got != want:
+            raise MachineryFailure("apalache-mc on PageDecoderInd: %s gave %s, expected %s\n%s" % (name, got, want, p.stdout[-2000:]))
+    shutil.rmtree(wd, ignore_errors=True)
+    ctx.notes["apalache_inductive_invariant"] = out
+
+
 def check_shape(ctx, s):
     dump = os.path.join(ctx.workdir, "pd_graph_%d.dot" % len(ctx.tlc_runs))
-    res = ctx.tlc("PageDecoder", constants=constants(s), invariants=INVS, workers=4, dump=dump, timeout=1500,
+    # PROPERTY Refines: every step of PageDecoder is a step of PageDecoderInd (the unbounded abstraction proved inductive by Apalache)
+    res = ctx.tlc("PageDecoder", constants=constants(s), invariants=INVS, properties=["Refines"], workers=4, dump=dump, timeout=1500,
                   label="PageDecoder " + label(s))
     if s["nk"] == 2:
         ctx.never_taken[:] = [a for a in ctx.never_taken if not a.endswith(".LineFail")]     # kind 2 is not part of this shape
@@ -264,6 +299,7 @@ def run(ctx):
                "the layout / cropping / OCR stages are replaced by a stub (RNG-based tie-breakers of layout stages are outside the anchors)",
                "transcriptions are never empty (an empty last_line is not re-primed from)")
     first = shapes(ctx.tier)[0]
+    apalache_induction(ctx)
     ctx.tlc("PageDecoder", constants=constants(first, legacy=True), invariants=["HistoryIndependent"], workers=4,
             expect_violation="HistoryIndependent", coverage=False, label="self-test Legacy=TRUE must violate HistoryIndependent")
     ctx.tlc("PageDecoder", constants=constants(first, legacy=True), invariants=["Isolation"], workers=4,
